@@ -64,10 +64,26 @@ def gen_flags(rng):
             "colors": rng.chance(25), "raw": rng.chance(25), "capture": not rng.chance(40)}
 
 
-def gen_patcher(rng, st):
+def gen_patcher(rng, st, chain=None):
+    """[id, key, value, mode, form]: mode 0 sets extra[key] = value, mode 1 adds value to extra[key] (not
+    idempotent); form 0 = a plain function object, 1 = a bound method fetched anew at every attachment (equal
+    but distinct objects).  With some probability an EXISTING patcher is attached again – preferably one that
+    is already on the chain of the receiving logger (`patch(f).patch(g).patch(f)`)."""
+    if st["pdefs"] and rng.chance(35):
+        pool = [q for q in (chain or []) if q in st["pdefs"]] if rng.chance(75) else []
+        pid = rng.choice(pool) if pool else rng.choice(sorted(st["pdefs"]))
+        return list(st["pdefs"][pid])
     st["serial"] += 1
     st["npatch"] += 1
-    return [st["npatch"], rng.below(NKEYS + 1), st["serial"]]   # key NKEYS = a key no layer uses
+    p = [st["npatch"], rng.below(NKEYS + 1), st["serial"], 1 if rng.chance(30) else 0, rng.below(2)]
+    st["pdefs"][p[0]] = p       # key NKEYS = a key no layer uses
+    return p
+
+
+def pdef(p):
+    """(id, key, value, mode, form) of a patcher descriptor (older corpus entries have 3 fields)"""
+    p = list(p) + [0, 0]
+    return p[0], p[1], p[2], p[3], p[4]
 
 
 def gen_exc(rng):
@@ -85,7 +101,7 @@ def pick_logger(rng, st):
 
 def gen_program(rng, maxops, maxctx, asyncio_mode):
     """global trace: list of op dicts {"c": ctx, "op": kind, ...}"""
-    st = {"serial": 0, "npatch": 0, "nlog": 1, "nh": 0}
+    st = {"serial": 0, "npatch": 0, "nlog": 1, "nh": 0, "pdefs": {}, "chains": [[]]}
     depth = {0: 0}
     alive = [0]
     nctx = 1
@@ -137,13 +153,24 @@ def gen_program(rng, maxops, maxctx, asyncio_mode):
                     emit(c, op="cancel", target=x, k=k)
                     depth[x] -= k
         elif r < 72:
-            emit(c, op="bind", l=pick_logger(rng, st), kw=gen_kw(rng, st, 0 if rng.chance(10) else 1, 3))
+            l = pick_logger(rng, st)
+            emit(c, op="bind", l=l, kw=gen_kw(rng, st, 0 if rng.chance(10) else 1, 3))
+            st["chains"].append(list(st["chains"][l]))
             st["nlog"] += 1
         elif r < 78:
-            emit(c, op="patch", l=pick_logger(rng, st), p=gen_patcher(rng, st))
+            l = pick_logger(rng, st)
+            if rng.chance(50):     # prefer receivers that already carry patchers: longer chains
+                cands = [i for i in range(st["nlog"]) if st["chains"][i]]
+                if cands:
+                    l = rng.choice(cands)
+            pt = gen_patcher(rng, st, st["chains"][l])
+            emit(c, op="patch", l=l, p=pt)
+            st["chains"].append(st["chains"][l] + [pt[0]])
             st["nlog"] += 1
         elif r < 84:
-            emit(c, op="opt", l=pick_logger(rng, st), f=gen_flags(rng))
+            l = pick_logger(rng, st)
+            emit(c, op="opt", l=l, f=gen_flags(rng))
+            st["chains"].append(list(st["chains"][l]))
             st["nlog"] += 1
         elif r < 89:
             extra = None if rng.chance(25) else gen_kw(rng, st, 0, 3)
@@ -210,12 +237,12 @@ def op_token(op):
     if k == "bind":
         return "%d:B:%d:%s" % (c, op["l"], kw_tok(op["kw"]))
     if k == "patch":
-        return "%d:P:%d:%d,%d,%d" % (c, op["l"], op["p"][0], op["p"][1], op["p"][2])
+        return "%d:P:%d:%d,%d,%d,%d" % ((c, op["l"]) + pdef(op["p"])[:4])
     if k == "opt":
         return "%d:O:%d:%s" % (c, op["l"], flags_tok(op["f"]))
     if k == "configure":
         return "%d:C:%s:%s" % (c, "-" if op["extra"] is None else kw_tok(op["extra"]),
-                               "-" if op["patcher"] is None else "%d,%d,%d" % tuple(op["patcher"]))
+                               "-" if op["patcher"] is None else "%d,%d,%d,%d" % pdef(op["patcher"])[:4])
     if k == "spawn":
         return "%d:S:%d" % (c, 1 if op["copy"] else 0)
     if k == "add":
@@ -276,6 +303,7 @@ class Spec:
         self.blocks = {0: []}
         self.expected = []       # events
         self.nontrivial = False
+        self.repeated_patcher = False
 
     def ctx_layer(self, c):
         out = dict(self.inherited[c])
@@ -335,9 +363,14 @@ class Spec:
             if sum(1 for layer in layers if layer) >= 2 or any(self.blocks[x] for x in self.blocks if x != c):
                 self.nontrivial = True
             chain = ([self.core_patcher] if self.core_patcher else []) + o["patchers"]
-            for pid, key, val in chain:
+            # once per ATTACHMENT, in the order of attachment – also when the same (or an equal) callable
+            # was attached more than once
+            for pt in chain:
+                pid, key, val, mode, _form = pdef(pt)
                 self.expected.append(("p", c, pid, dict(extra)))
-                extra[key] = val
+                extra[key] = val if mode == 0 else extra.get(key, 0) + val
+            if len(set(pdef(pt)[0] for pt in chain)) < len(chain):
+                self.repeated_patcher = True
             for h in self.handlers:
                 self.expected.append(("d", c, h, dict(extra)))
 
@@ -346,7 +379,7 @@ class Spec:
         b = {}
         for kw in o["bound"]:
             b.update(kw)
-        return (o["flags"], [p[0] for p in o["patchers"]], b)
+        return (o["flags"], [pdef(p)[0] for p in o["patchers"]], b)
 
 
 # ============================================================================ implementation runner
@@ -404,6 +437,30 @@ class Hang(Exception):
     pass
 
 
+class PatcherObj:
+    """a user object whose method (or a function closed over it) is used as a patcher"""
+
+    def __init__(self, run, pid, key, val, mode):
+        self.run, self.pid, self.key, self.val, self.mode = run, pid, key, val, mode
+
+        def func(record):
+            self.apply(record)
+        func.pid = pid
+        self.func = func
+
+    def apply(self, record):
+        extra = record["extra"]
+        self.run.events.append(("p", self.run.cur, self.pid, Run.canon(extra)))
+        k = key_name(self.key)
+        extra[k] = self.val if self.mode == 0 else extra.get(k, 0) + self.val
+
+
+def pid_of(p):
+    if hasattr(p, "__self__") and isinstance(p.__self__, PatcherObj):
+        return p.__self__.pid
+    return getattr(p, "pid", -1)
+
+
 class Run:
     """one programme on one fresh Logger"""
 
@@ -417,6 +474,7 @@ class Run:
         self.loggers = [self.logger0]
         self.lsnaps = [self.snap_logger(self.logger0)]
         self.records = []          # (record object, snapshot of extra)
+        self.pobjs = {}            # patcher id -> PatcherObj
         self.events = []
         self.handler_ids = []      # loguru ids, in installation order
         self.hnum = {}             # loguru id -> our number
@@ -443,16 +501,16 @@ class Run:
         ex, depth, record, lazy, colors, raw, capture, patchers, extra = lg._options
         exc = {None: 0, False: 1, True: 2}.get(ex, 9) if ex in (None, False, True) else 9
         return ((exc, depth, int(record), int(lazy), int(colors), int(raw), int(capture)),
-                [getattr(p, "pid", -1) for p in patchers], self.canon(extra))
+                [pid_of(p) for p in patchers], self.canon(extra))
 
     def mk_patcher(self, p):
-        pid, key, val = p
-
-        def patcher(record):
-            self.events.append(("p", self.cur, pid, self.canon(record["extra"])))
-            record["extra"][key_name(key)] = val
-        patcher.pid = pid
-        return patcher
+        """the callable for this attachment: the SAME function object every time the patcher is attached
+        (form 0), or the bound method `obj.apply` fetched anew (form 1: equal, not identical)"""
+        pid, key, val, mode, form = pdef(p)
+        obj = self.pobjs.get(pid)
+        if obj is None:
+            obj = self.pobjs[pid] = PatcherObj(self, pid, key, val, mode)
+        return obj.apply if form else obj.func
 
     def mk_sink(self, h):
         def sink(message):
@@ -793,12 +851,12 @@ def judge(ctx, trace, mode, model_out=None, report=True):
                          % (i, exp, got)))
     for i, snap in enumerate(run.lsnaps):
         if i < len(spec.loggers) and (snap[0], snap[1], snap[2]) != spec.logger_view(i):
-            problems.append(("oracle", "logger #%d has options %r, the property requires %r"
+            problems.append(("options", "logger #%d has options %r, the property requires %r"
                              % (i, snap, spec.logger_view(i))))
             break
     for c in sorted(run.finals):
         if run.finals[c] != spec.inherited[c]:
-            problems.append(("oracle", "context %d ends with context-local extra %r instead of the %r it started with"
+            problems.append(("final", "context %d ends with context-local extra %r instead of the %r it started with"
                              % (c, run.finals[c], spec.inherited[c])))
             break
     for step, text in run.alias[:3]:
@@ -986,7 +1044,7 @@ def evaluate(trace, mode):
     problems, r, spec = judge(None, trace, mode)
     return {"trace": trace, "mode": mode, "problems": problems, "events": r.events,
             "lsnaps": [tuple(x) for x in r.lsnaps], "finals": dict(r.finals), "nworkers": len(r.workers),
-            "nontrivial": spec.nontrivial}
+            "nontrivial": spec.nontrivial, "repeated_patcher": spec.repeated_patcher}
 
 
 def _job(args):
@@ -1024,25 +1082,37 @@ def run(ctx):
         ctx.stat("records_delivered", sum(1 for e in res["events"] if e[0] == "d"))
         ctx.stat("patcher_calls", sum(1 for e in res["events"] if e[0] == "p"))
         ctx.stat("contexts", res["nworkers"])
+        if res.get("repeated_patcher"):
+            ctx.stat("programs_logging_through_a_chain_with_a_repeated_patcher")
         ctx.stat("max_block_depth_%d" % max_depth(trace))
         for op in trace:
             ctx.stat("op:" + op["op"] + (":" + op["style"] if op["op"] == "enter" else "")
                      + (":" + op.get("exc", "exception") if op["op"] == "raise" else ""))
         for kind, text in res["problems"]:
-            if reported[0] < 4:
-                reported[0] += 1
+            ctx.stat("problems:" + kind)
+            if len(pending[kind]) < 2:
                 small = shrink(trace, mode, {kind}) if len(trace) > 4 else trace
                 pr2, _, _ = judge(ctx, small, mode)
                 text2 = next((t for k2, t in pr2 if k2 == kind), text)
-                ctx.violation("%s [%s, %s]: %s" % ({"oracle": "extra/patcher/scoping differs from the property",
-                                                     "alias": "an existing logger or delivered record was mutated"}[kind],
-                                                    mode, origin, text2),
-                              {"mode": mode, "trace": small, "line": prog_line(small), "kind": kind},
-                              key=None, kind="oracle")
+                pending[kind].append(("%s [%s, %s]: %s" % (HEAD[kind], mode, origin, text2),
+                                      {"mode": mode, "trace": small, "line": prog_line(small), "kind": kind}))
             else:
                 ctx.stat("violations_not_reported")
         lines.append(prog_line(trace))
         cases.append(res)
+
+    HEAD = {"oracle": "delivered extra / patcher calls differ from the property",
+            "alias": "an existing logger or delivered record was mutated",
+            "final": "contextualize() values not restored",
+            "options": "derived logger differs from what bind/opt/patch must return"}
+    pending = {k: [] for k in ("oracle", "alias", "final", "options")}
+
+    def flush():
+        # what handlers and patchers observed first, internal option tuples last
+        for kind in ("oracle", "alias", "final", "options"):
+            for what, rep in pending[kind]:
+                ctx.violation(what, rep, key=None, kind="oracle")
+            pending[kind] = []
 
     # ---- corpus first
     for name, item in load_corpus():
@@ -1071,6 +1141,8 @@ def run(ctx):
                     account(res, "random #%d" % i)
                     if i < 2:
                         ctx.sample({"mode": res["mode"], "line": prog_line(res["trace"])})
+
+    flush()
 
     # ---- cv stream
     cv_cases = []
@@ -1143,6 +1215,6 @@ def replay(ctx, rep):
     for kind, text in problems:
         print("%s: %s" % (kind, text))
     want = r.get("kind", "oracle")
-    bad = any(k == want or (want == "oracle" and k in ("oracle", "alias")) for k, _ in problems)
+    bad = any(k == want or (want == "oracle" and k in ("oracle", "alias", "final", "options")) for k, _ in problems)
     print("REPRODUCED" if bad else "not reproduced")
     return 1 if bad else 0
